@@ -136,6 +136,26 @@ class C05(Check):
                     symlinks[name] = "<T>"
                 else:
                     symlinks[name] = "<T>/does/not/exist.py"
+        if mode == "ff" and rng.random() < 0.35:
+            # a dependency-adding codemod with dependency manifests that are symlinks to files outside the target (directly,
+            # or inside a symlinked directory), optionally next to a real manifest: writers must not write through them
+            cids = cids + ["pixee:python/url-sandbox"]
+            r = G.pick_snippet(rng, "pixee:python/url-sandbox")
+            p = rng.choice(["svc.py", "pkg/svc.py"])
+            if p not in used:
+                used.add(p)
+                files.append({"path": p, "snippets": [r["idx"]], "layout": {}, "trigger_of": "pixee:python/url-sandbox"})
+                pys.append(p)
+            outside["out_reqs.txt"] = enc(b"requests==2.0\n")
+            outside["odir/requirements.txt"] = enc(b"flask\n")
+            outside["odir/setup.cfg"] = enc(b"[options]\ninstall_requires =\n    requests\n")
+            for name, target in rng.sample([("requirements.txt", "<X>/out_reqs.txt"), ("deploy/requirements.txt", "<X>/odir/requirements.txt"),
+                                            ("setup.cfg", "<X>/odir/setup.cfg"), ("vendor", "<X>/odir")], rng.randint(1, 3)):
+                if name not in used:
+                    used.add(name)
+                    symlinks[name] = target
+            if rng.random() < 0.4 and "pyproject.toml" not in used:
+                files.append({"path": "pyproject.toml", "raw": {"t": '[project]\nname = "x"\ndependencies = [\n    "requests",\n]\n'}})
         inc = gen_patterns(rng, pys, rng.choice([0, 0, 1, 2, 4]))
         exc = gen_patterns(rng, pys, rng.choice([0, 0, 1, 2, 4]))
         return {"kind": mode, "mode": mode, "include": cids, "files": files, "symlinks": symlinks, "outside": outside,
@@ -188,8 +208,9 @@ class C05(Check):
         expected = sorted(p for p, t in trig.items() if t and ref_selected(p, exp["path_include"], exp["path_exclude"], exp["mode"]))
         outcomes["_expected"] = expected
         outcomes["_triggers"] = sorted(p for p, t in trig.items() if t)
-        changed = sorted(run["changed"])
-        cs_paths = sorted({c.get("path") for r in (run["report"] or {}).get("results", []) for c in r.get("changeset", [])})
+        changed = sorted(p for p in run["changed"] if p.endswith(".py"))  # manifests are governed by the confinement clauses
+        cs_paths = sorted({c.get("path") for r in (run["report"] or {}).get("results", []) for c in r.get("changeset", [])
+                           if str(c.get("path")).endswith(".py")})
         pat = {"include": exp["path_include"], "exclude": exp["path_exclude"], "mode": exp["mode"]}
         if changed != expected:
             extra = sorted(set(changed) - set(expected))
